@@ -13,6 +13,7 @@ import (
 	"fmt"
 
 	blocks "github.com/ipfs/go-block-format"
+	"github.com/ipfs/go-peertaskqueue/peertask"
 	"github.com/ipld/go-ipld-prime"
 	"github.com/ipld/go-ipld-prime/datamodel"
 	"github.com/ipld/go-ipld-prime/traversal"
@@ -82,8 +83,26 @@ type Env struct {
 	Reqs            []*Req
 	Chooser         traversal.LinkTargetNodePrototypeChooser
 	Panics          []any
+	// DelayRelease: see slowManager
+	DelayRelease bool
 	// OnSend, when set, receives every message the requestor builds (the wire)
 	OnSend func(p peer.ID, reqs []gsmsg.GraphSyncRequest)
+}
+
+// slowManager is the manager handed to the executor: the real RequestManager,
+// except that (when DelayRelease is set) the executor's goroutine is
+// descheduled right before it reports the end of a task, until every other
+// goroutine has run as far as it can.
+type slowManager struct {
+	*requestmanager.RequestManager
+	e *Env
+}
+
+func (m *slowManager) ReleaseRequestTask(p peer.ID, task *peertask.Task, err error) {
+	if m.e.DelayRelease {
+		verifrt.Quiesce()
+	}
+	m.RequestManager.ReleaseRequestTask(p, task, err)
 }
 
 type persist struct{}
@@ -103,7 +122,7 @@ func NewEnv(dag *kit.DAG, has []bool, workers int, maxLinksGlobal uint64) *Env {
 	e.Chooser = kit.Chooser
 	e.RM = requestmanager.New(ctx, persist{}, e.Store.LinkSystem(), e, e, nel, listeners.NewRequestProcessingListeners(), e.TQ, e, maxLinksGlobal, func(obj any, stack string) { e.Panics = append(e.Panics, obj) })
 	e.RM.SetDelegate(e)
-	e.Ex = executor.NewExecutor(e.RM, e)
+	e.Ex = executor.NewExecutor(&slowManager{RequestManager: e.RM, e: e}, e)
 	if workers > 0 {
 		e.TQ.Startup(uint64(workers), e.Ex)
 	}
